@@ -524,7 +524,6 @@ def _build_ugrid(w):
         mesh_attrs["face_face_connectivity"] = "Mesh2_face_links"
     if edge_mode == "declared":
         mesh_attrs["edge_dimension"] = edge_dim
-    data_vars["Mesh2"] = xarray.DataArray(numpy.int32(0), attrs=mesh_attrs)
     nx = xarray.DataArray(q2f([p[0] for p in nodes]), dims=[node_dim], attrs={"units": "degrees_east", "standard_name": "longitude"})
     ny = xarray.DataArray(q2f([p[1] for p in nodes]), dims=[node_dim], attrs={"units": "degrees_north", "standard_name": "latitude"})
     coords = {}
@@ -540,6 +539,7 @@ def _build_ugrid(w):
             coords["Mesh2_face_x"] = fx; coords["Mesh2_face_y"] = fy
         else:
             data_vars["Mesh2_face_x"] = fx; data_vars["Mesh2_face_y"] = fy
+    data_vars["Mesh2"] = xarray.DataArray(numpy.int32(0), attrs=mesh_attrs)
     ds = xarray.Dataset(data_vars=data_vars, coords=coords)
     ds.attrs["Conventions"] = "UGRID-1.0"
     return ds
